@@ -212,6 +212,14 @@ void UncompressedFile::write(const std::shared_ptr<LogContainer> & logContainer)
         static_cast<uint32_t>(m_tellp - m_tellg) < m_bufferSize;
     });
 
+    /* close the log container the put position lies in, so that the appended one does not overlap its unused rest */
+    std::shared_ptr<LogContainer> currentLogContainer = logContainerContaining(m_tellp);
+    if (currentLogContainer) {
+        std::streamoff offset = m_tellp - currentLogContainer->filePosition;
+        currentLogContainer->uncompressedFile.resize(static_cast<size_t>(offset));
+        currentLogContainer->uncompressedFileSize = static_cast<uint32_t>(offset);
+    }
+
     /* append logContainer */
     m_data.push_back(logContainer);
     logContainer->filePosition = m_tellp;
